@@ -135,7 +135,7 @@ func Observe(s *packet.Session, buf, p []byte) (o Obs) {
 		return Obs{C02: "panic", Full: "panic"}
 	}
 	if err != nil {
-		return Obs{C02: "err", Full: "err"}
+		return Obs{C02: "err:any", Full: "err:any"}
 	}
 	n := len(p)
 	addr := func(a packet.Addr) string {
